@@ -885,6 +885,7 @@ def plan(prop, tier, seed, known):
             jobs.append({"name": "winrecycle%d" % k, "kind": "lin", "also": ["C08"], "driver": ["windows", "-part", "-2", "-parts", "7", "-seed", str(k)]})
         jobs += fsproto_jobs(q, "C03")
         jobs += commitwin_jobs(q)
+        jobs.append(probe_job(prop, av))   # client requests against a file whose truncation the (parked) shrinker has not completed
         for i in range(1 if q else 12):   # a crash in the middle of a concurrent history leaves a linearization prefix
             jobs.append(conccrash_job("conccrash%d" % i, seed * 100 + 90 + i, 2 + i % 3, 3 if q else 6, 6 if q else 8, av, 60 if q else 150, 2 if q else 4))
     elif prop == "C16":
